@@ -60,7 +60,7 @@ def run(tier, seed):
                 name, r.distinct, ", ".join("%s=%d" % (a, t) for a, (d, t) in sorted(r.coverage.items())),
                 ("; NEVER TAKEN: %s" % never) if never else ""))
             expected_idle = {"SetVarRaw", "SetIntScale", "SetOpt"} if name.startswith("Params") else (
-                {"GenPeriod"} if name == "Generator(RandMeth)" else set())   # actions that do not exist for that class
+                {"GenPeriod", "GenRefused"} if name == "Generator(RandMeth)" else set())   # actions that do not exist for that class
             if set(never) - expected_idle:
                 ok = False
     print("selftest: %s" % ("ok" if ok else "FAILED"))
